@@ -179,6 +179,9 @@ def _bench(name):
 BENCH = ("ackley", "beale", "griewank", "quartic", "rastrigin", "rosenbrock", "sphere",
          "styblinski_tang")
 NONCONVEX = BENCH + ("oscil", "expsum", "badscale", "linear")
+# objectives whose gradient is constant over long stretches: every candidate pair has
+# y = 0 and is rejected, so runs carry an *empty* memory for several iterations
+PAIRLESS = ("biglinear", "huber")
 
 
 def nonconvex_fg(name, n):
@@ -194,9 +197,21 @@ def nonconvex_fg(name, n):
     if name == "badscale":
         w = np.array([1e6 if i % 2 == 0 else 1e-3 for i in range(n)])
         return (lambda x: 0.5 * np.sum(w * (x - 0.3) ** 2), lambda x: w * (x - 0.3))
-    if name == "linear":
+    if name in ("linear", "biglinear"):
         w = np.array([(-1.0) ** i * (1.0 + 0.37 * i) for i in range(n)])
         return (lambda x: w @ x, lambda x: w.copy())
+    if name == "huber":
+        c = np.array([0.3 * ((-1.0) ** i) for i in range(n)])
+        dl = 0.5
+
+        def fh(x):
+            z = np.abs(x - c)
+            return float(np.sum(np.where(z <= dl, 0.5 * z * z, dl * (z - 0.5 * dl))))
+
+        def gh(x):
+            z = x - c
+            return np.where(np.abs(z) <= dl, z, dl * np.sign(z))
+        return fh, gh
     raise ValueError(name)
 
 
@@ -210,6 +225,8 @@ def nonconvex_problem(case):
     lo, up = (-1.9 - 0.1 * v, 2.3 + 0.17 * v)
     if case["fam"] == "expsum":
         lo, up = (-6.0 - v, 4.0 + 0.3 * v)
+    if case["fam"] in PAIRLESS:
+        lo, up = (-21.0 - v, 17.0 + 0.5 * v)
     if bl == "free":
         lb = np.full(n, -INF)
         ub = np.full(n, INF)
@@ -226,6 +243,8 @@ def nonconvex_problem(case):
     base = np.array([0.37 * t["th"] + 0.41 * ((-1) ** i) * (1 + 0.3 * i) for i in range(n)])
     if case["fam"] == "expsum":
         base = np.array([-5.0 + 0.3 * i + 0.1 * v for i in range(n)])
+    if case["fam"] in PAIRLESS:
+        base = np.array([7.0 * ((-1.0) ** (i + 1)) + 0.9 * i + 0.1 * v for i in range(n)])
     base = np.clip(base, np.where(np.isfinite(lb), lb + 0.05, -INF),
                    np.where(np.isfinite(ub), ub - 0.05, INF))
     x0 = base.copy()
